@@ -52,6 +52,7 @@ impl CallWant {
 				Some(v) => r.result_raw.as_deref().and_then(|t| serde_json::from_str::<Value>(t).ok()) == Some(v),
 				None => r.error_code == Some(classify::INVALID_PARAMS),
 			},
+			Some("ext_info" | "ext_info_async") => r.result_raw.as_deref() == Some(handlers::EXT_INFO_RESULT),
 			Some("fail") => r.error_code == Some(1234) && r.error_data_raw.as_deref() == Some(echo_text),
 			Some("panic_blocking") => r.error_code == Some(classify::INTERNAL_ERROR),
 			Some("sub") => {
